@@ -187,8 +187,10 @@ class Check:
         if self.errors:
             for e in self.errors:
                 print(f"ANALYSIS-ERROR property={self.pid} {e}")
+        replay = os.path.join(EVID_DIR, f"{self.pid}.violations.json")
+        if not new and os.path.exists(replay):
+            os.remove(replay)          # a replay file of an earlier run no longer describes the tree
         if new:
-            replay = os.path.join(EVID_DIR, f"{self.pid}.violations.json")
             with open(replay, "w") as fh:
                 json.dump(new, fh, indent=1, default=str)
             print(f"VIOLATION property={self.pid} replay={replay}")
